@@ -168,6 +168,26 @@ Theorem C17_consumers_agree :
 Proof. exact consumers_agree. Qed.
 Print Assumptions C17_consumers_agree.
 
+(* the summary line: every number it shows is a tally of the per-test final results of the stream,
+   and each optional token is shown exactly when its tally is positive (the "/I" part: when not
+   every selected test finished) *)
+Theorem C17_summary_tokens :
+  forall n evs tag v,
+    let T p := count_if (test_where p) evs in
+    In (tag, v) (summary_counts (run_stats n evs)) <->
+    (tag = 0 /\ v = T (on_res r_any))
+    \/ (tag = 1 /\ v = n /\ T (on_res r_any) <> n)
+    \/ (tag = 2 /\ v = T (on_res jis_success))
+    \/ (tag = 3 /\ v = T (fun a => jis_success (ja_res a) && ja_slow a) /\ 0 < v)
+    \/ (tag = 4 /\ v = count_if (fun e => test_where (on_res jis_success) e && retried e) evs /\ 0 < v)
+    \/ (tag = 5 /\ v = T (on_res r_leak) /\ 0 < v)
+    \/ (tag = 6 /\ v = T (on_res r_fail) /\ 0 < v)
+    \/ (tag = 7 /\ v = T (on_res r_exec) /\ 0 < v)
+    \/ (tag = 8 /\ v = T (on_res r_timeout) /\ 0 < v)
+    \/ (tag = 9 /\ v = count_if is_skipped_event evs).
+Proof. exact summary_tokens_are_tallies. Qed.
+Print Assumptions C17_summary_tokens.
+
 (* the statistics are tallies for every stream, report or not *)
 Theorem C17_stats_are_tallies :
   forall n evs, run_stats n evs = tally_stats n evs.
